@@ -54,6 +54,25 @@ CHECKS = {
              "sanitizers report reads outside the registry.",
         note="No duplicate entries are generated; sizes above 40 only via the full registries.",
         design="2/C10"),
+    "C13": dict(
+        technique="exhaustive (phase, gap) enumeration + Hypothesis stateful schedules vs unbounded-integer reference model",
+        text="SystemClock with an injected millisecond counter: in-driver enumeration of every start phase mod 65536 x 210 gaps "
+             "and all gaps 1..64536 x 64 phases (thorough: the full 4.2e9 product) with the counter straddling 2^16 and 2^32, all "
+             "phases x two-step schedules at the carried-remainder limit; plus Hypothesis rule-based schedules (set, set near the "
+             "shown second, sentinel, setup from backup, polled and unpolled advances up to exactly the limit) against the "
+             "model read = T + floor((m - m0)/1000); failures are shrunk to a replayable schedule.",
+        note="A re-set to the second currently shown may keep the older sub-second phase (documented early return; counted). "
+             "The counter is reported modulo 2^32 or unbounded; AVR 16-bit int promotion not modelled.",
+        design="2/C13"),
+    "C14": dict(
+        technique="bounded exhaustive enumeration of environment sequences + Hypothesis-generated histories, invariants over the logged history",
+        text="Real SystemClockLoop with scripted reference/backup clocks that log every call. All sequences over {4-5 step sizes} x "
+             "{not ready, valid(const), valid(varying), invalid} to depth 4-5 (thorough 5-6) for 8 (config, wiring) combinations "
+             "(1.6e6 sequences quick), plus Hypothesis histories of 20..120 (300) steps over 5 configurations x 5 wirings. "
+             "Invariants I1..I6 (apply valid response + backup write rule, failures never change clock/last-sync, request spacing "
+             ">= retry period with doubling/cap/reset, bounded progress, no calls without a reference, readResponse only when ready).",
+        note="Bounded depth for the exhaustive part; LP64 host: loop()'s unsigned long arithmetic does not wrap at 2^32 here.",
+        design="2/C14", category="exploration"),
     "C06": dict(
         technique="exhaustive enumeration + strided generation vs calendar oracle (datetime / days-from-civil differential)",
         text="Exhaustive enumeration of all 93,136 dates (plus all out-of-range component tuples in a surrounding "
